@@ -84,9 +84,12 @@ def bmp_seeds(r, thorough):
         for td in (False, True):
             hh = -h if td else h
             rows = [rnd_bytes(r, w * 3) for _ in range(h)]
-            S.append(("bmp24" + ("td" if td else ""), bmp_file(w, hh, 24, data=bmp_rows(rows, td)), "rgb8", (w, h)))
+            # top-down variants carry biSizeImage (as most writers do), bottom-up ones leave it 0 (as GIL's writer does)
+            d = bmp_rows(rows, td)
+            S.append(("bmp24" + ("td" if td else ""), bmp_file(w, hh, 24, data=d, imgsize=len(d) if td else 0), "rgb8", (w, h)))
             rows = [rnd_bytes(r, w * 4) for _ in range(h)]
-            S.append(("bmp32" + ("td" if td else ""), bmp_file(w, hh, 32, data=bmp_rows(rows, td)), "rgba8", (w, h)))
+            d = bmp_rows(rows, td)
+            S.append(("bmp32" + ("td" if td else ""), bmp_file(w, hh, 32, data=d, imgsize=len(d) if td else 0), "rgba8", (w, h)))
         rows = [rnd_bytes(r, w * 2) for _ in range(h)]
         S.append(("bmp16", bmp_file(w, h, 16, data=bmp_rows(rows, False)), "rgb8", (w, h)))
         S.append(("bmp15", bmp_file(w, h, 15, data=bmp_rows(rows, False)), "rgb8", (w, h)))
@@ -120,6 +123,20 @@ BMP_EXTRA = {"hdrsize": [12, 39, 40, 41, 56, 108, 124], "bpp": [1, 2, 4, 8, 15, 
              "ncolors": [2, 3, 16, 17, 255, 256, 257, 2 ** 14, 2 ** 14 + 1], "offset": [13, 14, 53, 54, 55, 58, 70, 1000, 2 ** 20],
              "width": [3, 4, 5, 8, 9, 2 ** 14, 2 ** 14 + 1, 21845, 21846, 2 ** 16, 2 ** 29, 715827883, 2 ** 32 - 2, 2 ** 32 - 3],
              "height": [2, 3, 2 ** 32 - 2, 2 ** 32 - 3, 2 ** 31 + 1, 2 ** 16, 2 ** 20], "magic": [0x4D42, 0x424D, 0x4142]}
+
+def bmp_pair_mutations(b):
+    """two header fields at once: (bits per pixel, image size), (bits per pixel, compression), (header size, height sign)"""
+    out = []
+    if len(b) < 54: return out
+    for bpp in (0, 2, 3, 7, 9, 64, 65535):
+        for isz in (0, 1, len(b) - 54, 2 ** 31, 2 ** 32 - 1):
+            x = set_field(set_field(b, 28, 2, bpp), 34, 4, isz)
+            out.append(("pair:bpp=%d,imgsize=%d" % (bpp, isz), x))
+        for comp in (1, 2, 3):
+            out.append(("pair:bpp=%d,comp=%d" % (bpp, comp), set_field(set_field(b, 28, 2, bpp), 30, 4, comp)))
+    for isz in (1, 7, len(b) - 55, len(b) - 53, 2 ** 31):
+        out.append(("pair:imgsize=%d" % isz, set_field(b, 34, 4, isz)))
+    return out
 
 # ------------------------------------------------------------------ generic mutations
 def set_field(b, off, width, v):
